@@ -60,6 +60,7 @@ func dropPages() {
 // poisonOffsets); "clearing" them clears exactly those offsets.
 type vAlloc struct {
 	kind        string
+	fixed       bool      // backs a shared memory: the buffer must never move (recycled takes a slab of max bytes)
 	pool        *slabPool // recycled
 	refuseAbove uint64    // refusing: bytes; 0 = never refuses
 	maps        [][]byte  // mmap'ed regions owned by this instance, unmapped by release()
@@ -134,7 +135,10 @@ func (m *vMem) Reallocate(size uint64) []byte {
 	case "recycled":
 		if m.back == nil || size > uint64(len(m.back)) {
 			need := size + 2*pageSize
-			if size >= huge {
+			if m.a.fixed && m.back != nil {
+				panic("HARNESS-ERROR: the recycled allocator would move a shared memory")
+			}
+			if size >= huge || m.a.fixed {
 				need = size
 				if m.max > need {
 					need = m.max
